@@ -44,4 +44,4 @@ def run(ctx, replay_cases=None):
         "string pools are ASCII; long values are runs of one byte",
     ]
     return flow.run_flow(ctx, "c07", MODULE, THEOREMS, MATCHERS, nontrivial, RULE,
-                         table_obligations=TABLE_OBLIGATIONS, replay_cases=replay_cases)
+                         table_obligations=TABLE_OBLIGATIONS, replay_cases=replay_cases, events_on_commit=False)
